@@ -152,7 +152,8 @@ def main(argv):
         if len(ck.samples) < 4 and v == "ok" and X in ("_", "k", "self") and role in ("global", "class-attribute") and feat in ("while", "class"):
             ck.sample({"identifier": X, "role": role, "feature": feat, "source": src})
     # alpha-renaming of random programs onto risky identifiers (non-builtin ones)
-    safe_risky = [x for x in RISKY if x not in BUILTINS_EMITTED and x not in ("itertools", "importlib")]
+    # (names of the form __x would be mangled inside class definitions: known finding KF-D55, replayed separately)
+    safe_risky = [x for x in RISKY if x not in BUILTINS_EMITTED and x not in ("itertools", "importlib") and not (x.startswith("__") and not x.endswith("__"))]
     nren = 40 if ck.tier == "quick" else 1200
     for i in range(nren):
         src, feats = gen_prog.gen_program(ck.rng, size=ck.rng.randrange(4, 10))
@@ -183,6 +184,10 @@ def main(argv):
                 k_bad.append((src, cfg, detail))
     if k_bad:
         ck.broken.append(f"correspondence K(lowerFull = convert): {len(k_bad)} programs differ, first: {k_bad[0][2][:300]} on {k_bad[0][0]!r}")
+    if "KF-D55" in kfs:
+        v, _ = gen_prog.behaviour_check(ol, kfs["KF-D55"]["witness"]["source"], gen_prog.CONFIGS[0])
+        if v.startswith("fail"):
+            kf_seen["KF-D55"] = ("__secret", "class-attribute", "-")
     for kf, (X, role, feat) in sorted(kf_seen.items()):
         ck.known(kf, kfs[kf]["what"])
     failing.sort(key=lambda f: len(f[5]))
